@@ -7,6 +7,6 @@ WT=$(mktemp -d /tmp/verif_wt.XXXXXX)
 git -C /repo worktree add -q --detach "$WT" HEAD
 ( cd "$WT" && git apply "$P" )
 for pid in "$@"; do
-  VERIF_REPO="$WT" /verif/check "$pid" --tier ${TIER:-quick} 2>&1 | grep -E "VIOLATION|obligation:|UNDECIDED|tier=" || true
+  VERIF_REPO="$WT" "$(dirname "$(readlink -f "$0")")/../check" "$pid" --tier ${TIER:-quick} 2>&1 | grep -E "VIOLATION|obligation:|UNDECIDED|tier=" || true
 done
 git -C /repo worktree remove --force "$WT"
